@@ -57,12 +57,14 @@ Section Inv.
 
   (* facts a thread relies on; all of them are stable under the steps of others *)
   Definition tfact (t : thread) (cl : list cls) : Prop :=
-    t_cur t <= t_tgt t /\ t_tgt t < length ct /\
+    (t_cur t <= t_tgt t /\ t_w t <= t_tgt t) /\ t_tgt t < length ct /\
     (forall o, t_obs t = Some o -> good_obs ct t o) /\
     match t_ph t with
     | Reread => pub (getc (t_cur t) cl) <> None
     | WCheck => t_cur t = t_tgt t /\ t_seen t <> None /\ pub (getc (t_tgt t) cl) <> None
     | WAcq w | WRemove w | WRel w => t_cur t = t_tgt t /\ w <= t_tgt t /\ pub (getc (t_tgt t) cl) <> None
+    | WNext w => t_cur t = t_tgt t /\ w <= S (t_tgt t) /\
+                 (w <= t_tgt t -> forall y, y <= t_tgt t -> complete y (getc y cl))
     | ObsInst => t_cur t = t_tgt t /\ forall y, y <= t_tgt t -> complete y (getc y cl)
     | Done => t_cur t = t_tgt t /\ t_obs t <> None
     | _ => True
@@ -125,7 +127,7 @@ Section Inv.
   Proof.
     intros [_ [_ [Ht Hl]]] Hy. destruct (lock s) as [[i d]|].
     - destruct Hl as [_ [t [Hn [_ Hc]]]]. eapply class_ok_sound; eauto.
-      destruct (Ht i t Hn) as [[H _] _]; auto.
+      destruct (Ht i t Hn) as [[[H _] _] _]; auto.
     - apply quiet_sound; auto.
   Qed.
 
@@ -158,6 +160,7 @@ Section Inv.
     - destruct H4 as [A [B C]]; split; [auto|split; [auto|]]. apply (Hm (t_tgt t)); auto.
     - destruct H4 as [A [B C]]; split; [auto|split; [auto|]]. apply (Hm (t_tgt t)); auto.
     - destruct H4 as [A [B C]]; split; [auto|split; [auto|]]. apply (Hm (t_tgt t)); auto.
+    - destruct H4 as [A [B C]]; split; [auto|split; [auto|]]. intros Hw y Hy. apply (Hm y); auto.
     - destruct H4 as [A B]; split; auto. intros y Hy. apply (Hm y); auto.
   Qed.
 
